@@ -89,9 +89,9 @@ Notation pipe := (run OR db ban fuel t tmsg).
 
 Definition well_formed (s : string) : Prop := one_sep (strip OR s) = true /\ parse_ok OR (strip OR s) = true.
 
-Lemma admitted_all b : Forall well_formed b -> admitted OR b = map (strip OR) b.
+Lemma kept_inputs_all b : Forall well_formed b -> kept_inputs OR b = map (strip OR) b.
 Proof.
-  unfold admitted. induction 1 as [|s t0 [W1 W2] F IH]; simpl; auto. rewrite W2, IH. reflexivity.
+  unfold kept_inputs. induction 1 as [|s t0 [W1 W2] F IH]; simpl; auto. rewrite W2, IH. reflexivity.
 Qed.
 Lemma rinput_F r : rinput (F OR db ban fuel r) = rinput r.
 Proof.
@@ -118,7 +118,7 @@ Theorem batch_rows_describe_inputs b rows st : Forall well_formed b ->
   pipe b = Done (rows, st) -> Forall2 (fun s r => rinput r = strip OR s) b rows.
 Proof.
   intros W H. pose proof (run_rows_are_alone_results OR db ban fuel t tmsg b rows st H) as A.
-  fold (admitted OR b) in A. rewrite (admitted_all b W) in A.
+  fold (kept_inputs OR b) in A. rewrite (kept_inputs_all b W) in A.
   clear H W. remember (map (strip OR) b) as m. revert b Heqm.
   induction A as [|s r l rs [r1 [A1 E]] FA IH]; intros b Hm.
   - destruct b; [constructor|discriminate].
